@@ -8,6 +8,7 @@ import (
 
 	"github.com/glebziz/fs_db"
 	"github.com/glebziz/fs_db/internal/model"
+	"github.com/glebziz/fs_db/internal/model/reclaim"
 	"github.com/glebziz/fs_db/internal/utils/ptr"
 )
 
@@ -28,6 +29,11 @@ func (u *UseCase) GetKeys(ctx context.Context) ([]string, error) {
 		filter.TxId = ptr.Ptr(model.MainTxId)
 		filter.BeforeSeq = ptr.Ptr(tx.Seq)
 	}
+
+	// A listed version may be superseded, or rolled back, right after the listing;
+	// its content must not be removed before its record has been looked at, or a
+	// key that has had a value all the time would be taken for a deleted one.
+	defer reclaim.Read()()
 
 	files, err := u.fRepo.GetFiles(ctx, tx.Id, filter)
 	if err != nil {
